@@ -39,7 +39,8 @@ META = {
   "is the one used (None-tests, never truthiness), a self-loop never creates an I-S link, and every event runs to the end of "
   "the loop body (no `continue` past the clock). "
   "Gillespie_SIR / Gillespie_SIS stamp the records of the initial condition with tmin, before the clock is advanced (R10t). "
-  "In every function reachable from the property's entry points no dict.fromkeys(keys, v) / [v]*n hands one mutable object or one random draw to all keys (SHARE).",
+  "In every function reachable from the property's entry points no dict.fromkeys(keys, v) / [v]*n hands one mutable object or one random draw to all keys (SHARE). "
+  "_ListDict_ keeps no mutable class-level attribute (STATE): the candidate sets of one run are not those of the previous one.",
   "Not decided: that binomial + truncated exponential equals independent exponential clocks, any distributional equality, numeric rates.",
   "ast: symbolic rate expansion, exhaustive abstract case analysis of incremental set maintenance (R11), call-binding (R1), control-context facts (H-guard), class-invariant rules (R12)"),
  "C02": _m(
@@ -49,7 +50,8 @@ META = {
   "exponential after the target's recovery (memorylessness), role binding of queued events, queue discipline, +-1 rows; the "
   "requested initial set is the one used; a self-loop never creates an I-S link; no `continue` past the clock. "
   "Gillespie_SIR / Gillespie_SIS stamp the records of the initial condition with tmin, before the clock is advanced (R10t). "
-  "In every function reachable from the property's entry points no dict.fromkeys(keys, v) / [v]*n hands one mutable object or one random draw to all keys (SHARE).",
+  "In every function reachable from the property's entry points no dict.fromkeys(keys, v) / [v]*n hands one mutable object or one random draw to all keys (SHARE). "
+  "_ListDict_ keeps no mutable class-level attribute (STATE): the candidate sets of one run are not those of the previous one.",
   "Not decided: the memorylessness argument itself and all distributional content.",
   "ast: symbolic rate expansion, R11 case analysis, handler guard/role rules over control-context facts, R1, R13, R9"),
  "C03": _m(
@@ -57,7 +59,8 @@ META = {
   "list and the total is recomputed after every event; every remove/update of potential_transitions in the update section is "
   "guarded by transition[0] == (statuses of exactly the key it touches, old status for remove, new for update) with weight "
   "get_weight[transition][key]; coverage of key shapes is complete for the spontaneous, undirected and directed sections; "
-  "initial fill, rate tables, weight tables and event application read the matching spec graph/components.",
+  "initial fill, rate tables, weight tables and event application read the matching spec graph/components. "
+  "_ListDict_ keeps no mutable class-level attribute (STATE): the candidate sets of one run are not those of the previous one.",
   "Not decided: that the resulting process has the stated law; behaviour of user rate functions.",
   "ast: exhaustive key-shape x operation analysis of the enabled-event sets (R11s), selection/clock agreement, R12, R9"),
  "C04": _m(
@@ -69,7 +72,8 @@ META = {
   "move applied is the chosen transition's (candidate sets guarded by exactly the statuses of their key: no stale candidate); "
   "in Gillespie_SIR/SIS the I-S link set is exact (R11, incl. self-loops), so no event fires on a non-susceptible node. "
   "An emptied weighted candidate set weighs exactly 0 whatever weight left last (R12.I6), so the generic loops stop at extinction instead of drawing from an empty list. "
-  "In every function reachable from the property's entry points no dict.fromkeys(keys, v) / [v]*n hands one mutable object or one random draw to all keys (SHARE).",
+  "In every function reachable from the property's entry points no dict.fromkeys(keys, v) / [v]*n hands one mutable object or one random draw to all keys (SHARE). "
+  "The event handlers never rebind their time parameter, the series are cut only after the event loop has run (R9.C04), and with full data the rows are read off histories rebuilt from every recorded infection and recovery (HIST).",
   "Not decided: monotonicity of time (non-negativity of run-time delays), termination with I=0.",
   "ast: path enumeration through event blocks (R9), control-context domination (R13, R17), flag-enumerating abstract interpreter (R2/R3)"),
  "C05": _m(
@@ -101,7 +105,8 @@ META = {
   "pairs are sampled I-S links (R11); source-less records occur only in loops over initial_infecteds; the discrete-time "
   "infector is one of the nodes that infected v in that generation; transmissions()/transmission_tree() serve what was stored. "
   "Gillespie_SIR / Gillespie_SIS stamp the records of the initial condition with tmin, before the clock is advanced (R10t). "
-  "In every function reachable from the property's entry points no dict.fromkeys(keys, v) / [v]*n hands one mutable object or one random draw to all keys (SHARE).",
+  "In every function reachable from the property's entry points no dict.fromkeys(keys, v) / [v]*n hands one mutable object or one random draw to all keys (SHARE). "
+  "Which attempts of fast_nonMarkov_SIS are queued (first attempt, exactly the rest carried, shifted copies of the user's delays) is decided by H-chain.",
   "Not decided: forest shape and time ordering of the list (run-time).",
   "ast: constructor agreement (R8), record pairing on enumerated paths (R9.C09), handler role binding (H-role), R11"),
  "C10": _m(
@@ -157,7 +162,8 @@ META = {
   "Gillespie_complex_contagion: loop runs exactly while total_weight()>0 and t<tmax; clock is Exp(total_weight()) under a >0 "
   "guard before the loop and after every event; select, ask the chooser on pre-event statuses, write; the changed node and "
   "every member of get_influence_set(G,node,status,parameters) are re-rated unconditionally with rate_function on the new "
-  "statuses between the write and the clock; no `continue` skips that tail; +-1 data rows; _ListDict_ insert/remove semantics (R12).",
+  "statuses between the write and the clock; no `continue` skips that tail; +-1 data rows; _ListDict_ insert/remove semantics (R12). "
+  "_ListDict_ keeps no mutable class-level attribute (STATE): the candidate sets of one run are not those of the previous one.",
   "Not decided: adequacy of the user's influence set (assumed by the property).",
   "ast: ordering and must-pass-through rules on the loop body (R11c), R12, R9"),
  "C16": _m(
@@ -165,7 +171,8 @@ META = {
   "store and lowered only by exact recomputation; items/position bijection; choose_random accepts iff random() < "
   "weight/max_weight on a uniform proposal; total_weight() accessor; insert = remove + update unless weight 0; and in the four "
   "Gillespie simulators the clock rate is the sum of the CURRENT total weights of the candidate sets, recomputed after every event "
-  "(symbolic expansion, RATE / R11c).",
+  "(symbolic expansion, RATE / R11c). "
+  "_ListDict_ keeps no mutable class-level attribute (STATE): the candidate sets of one run are not those of the previous one.",
   "Not decided: floating-point drift of _total_weight ('to rounding'); negative increments (outside the quantifier).",
   "ast: class-invariant rules on symbolic store deltas and control-context facts (R12), symbolic rate expansion (RATE)"),
  "C17": _m(
